@@ -237,6 +237,31 @@ def g_bytes(r):
     return history(r)
 
 
+def g_bytes_big(r):
+    """one or two contiguous blocks of 256..700 bytes (initial, or grown from adjacent stores) and loads / missing
+    queries at every distance from their ends (block lengths and remaining lengths beyond one byte's range)"""
+    base = r.choice([0, 1000, 2 ** 32 - 100, TOP - 2000])
+    ln = r.choice([255, 256, 257, 300, 511, 512, 513, 520, 700])
+    ops = []
+    if r.random() < 0.5:
+        hdr = "bytes 1 %d %s" % (base, _hex(_rbytes(r, ln)))
+    else:
+        hdr = "bytes 1 %d %s" % (base, _hex(_rbytes(r, 8)))
+        pos = base + 8
+        while pos < base + ln:
+            w = min(8, base + ln - pos)
+            ops.append("st %d %d c:%s" % (pos, w, _hex(_rbytes(r, w))))
+            pos += w
+    end = base + ln
+    for _ in range(r.choice([3, 5, 8])):
+        w = r.choice([1, 2, 4, 8, 16, 255])
+        rem = r.choice([w, w, w + 1, 256, 256 + w, 256 + w - 1, 257, 258, 512, 512 + w, ln, r.randint(w, ln)])
+        a = max(base, end - min(rem, ln))
+        ops.append(r.choice(["ld %d %d", "ld %d %d", "ms %d %d"]) % (a, min(w, 255)))
+    ops.append("bl")
+    return "%s %d %s" % (hdr, len(ops), " ".join(ops))
+
+
 def g_bytes_front(r):
     """F32 shape: three or more separated blocks, then stores in front of them"""
     base = r.choice([0, 0, 100, TOP - 300])
